@@ -313,9 +313,19 @@ pub fn register(m: &mut HashMap<&'static str, OpFn>) {
     m.insert("sig.esk", |a| {
         // ExpandedSecretKey from seed / from 64 bytes / from slice
         let b = a.bytes(0);
+        let via_tryfrom = match ExpandedSecretKey::try_from(b.as_slice()) {
+            Ok(e) => format!("{}{}", hex(&e.scalar.to_bytes()), hex(&e.hash_prefix)),
+            Err(_) => "err".into(),
+        };
         match ExpandedSecretKey::from_slice(&b) {
-            Ok(e) => vec!["ok".into(), hex(VerifyingKey::from(&e).as_bytes()), hex(&e.scalar.to_bytes()), hex(&e.hash_prefix)],
-            Err(_) => vec!["err".into()],
+            Ok(e) => vec![
+                "ok".into(),
+                hex(VerifyingKey::from(&e).as_bytes()),
+                hex(&e.scalar.to_bytes()),
+                hex(&e.hash_prefix),
+                via_tryfrom,
+            ],
+            Err(_) => vec!["err".into(), via_tryfrom],
         }
     });
     // batch: [msgs] [sigs] [keys] -> ok/err/badkey, repeated call result equal?
@@ -431,5 +441,31 @@ pub fn register(m: &mut HashMap<&'static str, OpFn>) {
         let back1 = SigningKey::from_pkcs8_der(d1.as_bytes()).map(|k| hex(&k.to_bytes())).unwrap_or_else(|_| "err".into());
         let back2 = VerifyingKey::from_public_key_der(d2.as_bytes()).map(|k| hex(k.as_bytes())).unwrap_or_else(|_| "err".into());
         vec![hex(d1.as_bytes()), hex(d2.as_bytes()), back1, back2]
+    });
+    // the signature-crate trait entry points that take no context: seed msg sig-to-verify
+    //   -> DigestSigner sig, DigestVerifier(vk) of it, Verifier(SigningKey) of the given sig, Verifier(vk) of the given sig,
+    //      verifying key of SigningKey::from(&seed) and SigningKey::from(seed)
+    m.insert("sig.traits", |a| {
+        use signature::{DigestSigner, DigestVerifier};
+        let seed = a.b32(0);
+        let sk = SigningKey::from_bytes(&seed);
+        let msg = a.bytes(1);
+        let given = sig_of(a, 2);
+        let ds: Result<Signature, _> = DigestSigner::try_sign_digest(&sk, sha_digest(&msg));
+        let (dsig, dver) = match ds {
+            Ok(s) => (hex(&s.to_bytes()), res(DigestVerifier::verify_digest(&sk.verifying_key(), sha_digest(&msg), &s))),
+            Err(_) => ("err".into(), "err".into()),
+        };
+        let k1 = SigningKey::from(&seed);
+        let k2 = SigningKey::from(seed);
+        vec![
+            dsig,
+            dver,
+            res(Verifier::verify(&sk, &msg, &given)),
+            res(Verifier::verify(&sk.verifying_key(), &msg, &given)),
+            res(DigestVerifier::verify_digest(&sk.verifying_key(), sha_digest(&msg), &given)),
+            hex(k1.verifying_key().as_bytes()),
+            hex(k2.verifying_key().as_bytes()),
+        ]
     });
 }
